@@ -147,6 +147,8 @@ func buildPool(root string, seed uint64, corrupt, churn, large int) error {
 	}
 	// typo sweep (typos.go): near-misses of the leading keywords; substitutions in big pools only
 	p.inputs = append(p.inputs, typoSweep(p.inputs, corpus, corrupt >= 1000)...)
+	// operator slips and doubled lists (sweeps2.go)
+	p.inputs = append(p.inputs, slipAndDoubleSweep(rng, p.inputs, corpus, 2*corrupt)...)
 	// siblings: same length, same paths as their source, different line structure or one
 	// letter changed (what a cache with a weak key confuses)
 	for i := 0; i < corrupt/2; i++ {
